@@ -300,12 +300,19 @@ class Places:
     `let S { a, b } = g;` (a is g.a), `let (a, b) = t;`, `let x = { ..; z };` (x is z: a helper's result after inlining)"""
     def __init__(self, t):
         self.alias = {}           # var -> (root var, field path tuple)
+        self.falias = {}          # (var, field index) -> place, for records built from places
         for b in walk(t['body']):
             if b['k'] != 'Block': continue
             for st in b['stmts']:
                 if st['k'] != 'Let' or st.get('init') is None: continue
                 src = self.raw(st['init'])
-                if src is None: continue
+                if src is None:
+                    # a record built from places: `let g = Graph { edges, vertices };` (also behind `Ok(..)?` of an inlined helper): g.f is that place
+                    rec = self.record(st['init'])
+                    q = unwrap_pat(st['pat'])
+                    if rec is not None and q['k'] == 'Binding':
+                        for fidx, pl in rec.items(): self.falias[(q['var'], fidx)] = pl
+                    continue
                 self.bind(st['pat'], src)
     def bind(self, pat, src):
         q = unwrap_pat(pat)
@@ -329,11 +336,33 @@ class Places:
             if b is None: return None
             return (b[0], b[1] + (e['field'],))
         return None
+    def record(self, e):
+        """{field index: place} of a struct literal whose fields are places, looking through blocks, `Ok(..)` and `?`"""
+        e = strip(e)
+        for _ in range(12):
+            if e['k'] == 'Block' and e.get('expr') is not None: e = strip(e['expr']); continue
+            if e['k'] == 'Match' and 'TryDesugar' in str(e.get('source')):
+                sc = strip(e['scrutinee'])
+                if sc['k'] == 'Call' and sc['args']: e = strip(sc['args'][0]); continue
+            if e['k'] == 'Adt' and canon(e['adt']) == 'std::result::Result' and e['variant'] == 'Ok' and e['fields']: e = strip(e['fields'][0]['expr']); continue
+            break
+        if e['k'] == 'Adt' and e['fields'] and not canon(e['adt']).startswith(('std::', 'core::', 'alloc::')):
+            out = {}
+            for f in e['fields']:
+                pl = self.raw(f['expr'])
+                if pl is not None: out[f['idx']] = pl
+            return out or None
+        return None
     def canon(self, pl, depth=0):
         if pl is None: return None
-        while pl[0] in self.alias and depth < 20:
-            a = self.alias[pl[0]]
-            pl = (a[0], a[1] + pl[1]); depth += 1
+        while depth < 20:
+            if pl[0] in self.alias:
+                a = self.alias[pl[0]]
+                pl = (a[0], a[1] + pl[1]); depth += 1; continue
+            if pl[1] and (pl[0], pl[1][0]) in self.falias:
+                a = self.falias[(pl[0], pl[1][0])]
+                pl = (a[0], a[1] + pl[1][1:]); depth += 1; continue
+            break
         return pl
     def place(self, e):
         pl = self.canon(self.raw(e))
@@ -454,6 +483,23 @@ def rule_max_clique(F, R):
             if P.place(e['args'][0]) == T: uses.append(e['loc'])
     R.count('L:complement-list-readers', len(uses)); R.obligation(len(uses) >= 2, 'L readers')
     if len(uses) < 2: R.violation('max_clique_gen::main / L / constraint copies', 'L', 'the plain and the v_-prefixed constraint blocks must both be generated from the complement-edge list (found %d readers)' % len(uses))
+    # every endpoint of every record is a vertex: the vertex collection receives both fields of each record
+    Xp = [k for k, v in roles.items() if v == 'vertices'][0]
+    ins = [e for e in walk(t['body']) if e['k'] == 'Call' and (callee_name(e) or '').split('::')[-1] == 'insert' and P.place(e['args'][0]) == Xp]
+    cols = set()
+    import re as _re
+    NV = Atomizer(t, roles, P)
+    for e in ins:
+        mm = _re.search(r'\[(\d+)\]$', NV.norm(e['args'][1]))       # reads through `let from = record[0].to_string();`
+        if mm: cols.add(mm.group(1))
+    okv = cols == {'0', '1'}
+    R.count('L:vertex-inserts', len(ins)); R.obligation(okv, 'L vertex set')
+    if not okv: R.violation('max_clique_gen::main / L / vertex set', 'L', 'both endpoints of every record must be added to the vertex collection (record fields 0 and 1); found fields %s' % sorted(cols))
+    # the `true` alternative of a constraint block is taken exactly when the complement-edge list is empty
+    empt = [e for e in walk(t['body']) if e['k'] == 'If' and e['cond']['k'] != 'Let' and strip(e['cond'])['k'] == 'Call' and (callee_name(strip(e['cond'])) or '').split('::')[-1] == 'is_empty']
+    oke = len(empt) >= 1 and all(P.place(strip(e['cond'])['args'][0]) == T for e in empt)
+    R.count('L:emptiness-tests', len(empt)); R.obligation(oke, 'L emptiness')
+    if not oke: R.violation('max_clique_gen::main / L / empty constraint block', 'L', 'the `true` alternative of a constraint block must be chosen by the emptiness of the complement-edge list itself')
     # --all replaces the maximality part by `true`
     ok = False
     N = Atomizer(t, roles, P)
